@@ -177,10 +177,14 @@ class SlurmScriptAdapter(SchedulerScriptAdapter):
         args = [
             # SLURM srun command
             self._cmd_flags["cmd"],
-            # Processors segment
-            self._cmd_flags["ntasks"],
-            str(procs)
         ]
+
+        # Processors segment (absent for a step that only declares nodes)
+        if procs:
+            args += [
+                self._cmd_flags["ntasks"],
+                str(procs)
+            ]
 
         if nodes:
             args += [
